@@ -115,3 +115,24 @@ def sim_set_pickler(name=None):
 
 def sim_get_pickler():
     return E.WORLD.pickler.get(E._owner(), "cloudpickle")
+
+
+HOLDER = None      # the scenario's holder (executor, futures); set by world.run_scenario
+
+
+class CbSubmit:
+    """done-callback that re-enters the executor: submits task `k` (as user code in callbacks does)"""
+
+    def __init__(self, k, tasks):
+        self.k, self.tasks = k, tasks
+
+    def __call__(self, fut):
+        H = HOLDER
+        ex = H.ex
+        if ex is None:
+            return
+        spec = self.tasks[self.k]
+        f = ex.submit(task, self.k, spec, make_arg(spec.get("args", "ok")))
+        H.futs[self.k] = f
+        H.by_wid.append((self.k, f))
+        H.cb_submitted.append(self.k)
